@@ -4389,10 +4389,10 @@ class FlowIR(object):
 
                 weights.append(stage_weight)
 
-            # VV: adding floats is hard, let's assume that there're at most 2 decimals
-            int_weights = [int(e * 1000) for e in weights]
-
-            if sum(int_weights) != 1000:
+            # VV: adding floats is hard, the weights are acceptable when none of them is negative and they add up
+            # to 1.0 within a small tolerance (truncating to 3 decimals rejects e.g. [0.3333, 0.3333, 0.3334] and
+            # accepts [1.5, -0.5] or [0.5004, 0.5004])
+            if any(e < 0.0 for e in weights) or not abs(sum(weights) - 1.0) <= 1e-9:
                 fallbackWeight = int(1000 / num_stages) / 1000.0
 
                 flowirLogger.log(19, "Stage weights do not add to one: %s = %3.3lf\n" % (weights, sum(weights)))
